@@ -1,6 +1,7 @@
 // Worker: a test binary (testing/synctest needs *testing.T) that executes plans.
-//   -verif.mode=batch : generate and run plans idx = start, start+stride, ... until count or wall budget
-//   -verif.mode=plan  : run one plan file, write the result
+//
+//	-verif.mode=batch : generate and run plans idx = start, start+stride, ... until count or wall budget
+//	-verif.mode=plan  : run one plan file, write the result
 package worker
 
 import (
@@ -37,22 +38,22 @@ var (
 
 // Summary is what a batch worker reports.
 type Summary struct {
-	Runs        int              `json:"runs"`
-	NextIndex   int              `json:"next_index"`
-	Steps       int64            `json:"steps"`
-	SimUs       int64            `json:"sim_us"`
-	Fired       map[string]int   `json:"fired"`
-	Probes      map[string]int   `json:"probes"`
-	Digests     []string         `json:"digests"`    // distinct run digests of non-trivial runs (16 hex chars)
-	AllDigests  int              `json:"all_digests"` // distinct digests over all runs
-	States      []uint64         `json:"states"`
-	Nontrivial  int              `json:"nontrivial"`
-	Violations  []ViolationRec   `json:"violations,omitempty"`
-	Samples     []Sample         `json:"samples,omitempty"`
-	Nondeterm   []int            `json:"nondeterministic,omitempty"`
-	Rechecked   int              `json:"rechecked"`
-	WallS       float64          `json:"wall_s"`
-	Meta        *run.Meta        `json:"meta,omitempty"`
+	Runs       int            `json:"runs"`
+	NextIndex  int            `json:"next_index"`
+	Steps      int64          `json:"steps"`
+	SimUs      int64          `json:"sim_us"`
+	Fired      map[string]int `json:"fired"`
+	Probes     map[string]int `json:"probes"`
+	Digests    []string       `json:"digests"`     // distinct run digests of non-trivial runs (16 hex chars)
+	AllDigests int            `json:"all_digests"` // distinct digests over all runs
+	States     []uint64       `json:"states"`
+	Nontrivial int            `json:"nontrivial"`
+	Violations []ViolationRec `json:"violations,omitempty"`
+	Samples    []Sample       `json:"samples,omitempty"`
+	Nondeterm  []int          `json:"nondeterministic,omitempty"`
+	Rechecked  int            `json:"rechecked"`
+	WallS      float64        `json:"wall_s"`
+	Meta       *run.Meta      `json:"meta,omitempty"`
 }
 
 type ViolationRec struct {
